@@ -123,7 +123,7 @@ def gen_cases(seed, n, maxlen):
         if not in_fragment(d):
             discarded += 1
             continue
-        cases.append({'d': d, 'neg': (len(cases) % 7 == 3)})
+        cases.append({'d': d, 'neg': (len(cases) % 7 == 3), 'dup': ['same', 'upper', 'lower', 'swap'][len(cases) % 4]})
     return cases, discarded
 
 
@@ -152,6 +152,15 @@ def signature(case, r):
                 worst = 'C19/store-number-cut-out-of-needle'
             else:
                 return 'C19/suggested-rule-does-not-match-its-description'
+    if worst is None and r.get('dup') is not None:
+        # the same suggestion appended to a rules text that already has a rule of that name (any letter case)
+        # whose match does not cover d: the file must load and d must now match the rule with the suggested match text
+        o = r['dup']
+        if o['existing_alone']['load'] == 'ok' and o['existing_alone']['matched'] is False:
+            if o['load'] != 'ok':
+                return 'C19/rules-file-with-appended-suggestion-does-not-load'
+            if o['matched'] is not True or o.get('matched_expr') != o['suggested_expr'] or o.get('category') != 'Food':
+                return 'C19/appended-suggestion-lost-when-rule-name-already-exists'
     return worst
 
 
@@ -164,20 +173,20 @@ def run_cases_impl(cases):
     return run_impl(IMPL, {'cases': cases}, timeout=1200)
 
 
-def sig_of(d, neg=False):
-    c = {'d': d, 'neg': neg}
+def sig_of(d, neg=False, dup='same'):
+    c = {'d': d, 'neg': neg, 'dup': dup}
     r = run_cases_impl([c])['results'][0]
     return signature(c, r), r
 
 
-def shrink(d, sig, neg=False, budget=120):
+def shrink(d, sig, neg=False, budget=120, dup='same'):
     """Delete words, then characters, keeping the same failure signature."""
     def fails(x):
         nonlocal budget
         if budget <= 0 or not in_fragment(x):
             return False
         budget -= 1
-        return sig_of(x, neg)[0] == sig
+        return sig_of(x, neg, dup)[0] == sig
     changed = True
     while changed and budget > 0:
         changed = False
@@ -211,18 +220,19 @@ Definition V : variant := %s.
 Definition oeq (a : option string) (b : string) : bool := match a with Some x => String.eqb x b | None => false end.
 Definition code (o : obs) : nat := match o with ObsLoaded true => 0 | ObsLoaded false => 1 | ObsLoadErr => 2 | ObsUnm => 3 end.
 Definition no_re (p t : string) : option bool := None.
-Definition ok (c : string * bool * (string * string * string * string) * nat) : bool :=
-  let '(d, neg, (pat, nm, needle, rule), k) := c in
+Definition ok (c : string * bool * (string * string * string * string) * nat * (string * nat)) : bool :=
+  let '(d, neg, (pat, nm, needle, rule), k, (duptext, k2)) := c in
   let tags := if neg then ["refund"] else [] in
   (oeq (suggest_pattern d) pat && oeq (suggest_merchant_name d) nm && oeq (needle_of V d) needle
-   && oeq (suggested_rule V d tags) rule && Nat.eqb (code (observe no_re V d tags)) k)%%bool.
+   && oeq (suggested_rule V d tags) rule && Nat.eqb (code (observe no_re V d tags)) k
+   && (Nat.eqb k2 99 || Nat.eqb (code (observe_text no_re duptext d)) k2))%%bool.
 Fixpoint failing (i : nat) (l : list _) : list nat :=
   match l with [] => [] | c :: r => if ok c then failing (S i) r else i :: failing (S i) r end.
 ''' % ('Fixed' if variant == 'fixed' else 'Orig')
 
 
-def obs_code(r):
-    o = r['raw']
+def obs_code(r, which='raw'):
+    o = r[which]
     if o['load'] == 'ok':
         return 0 if o['matched'] is True else 1
     if o['load'] == 'parse-error':
@@ -236,7 +246,8 @@ def model_check(cases, results, variant, name='C19'):
         if 'error' in r:
             continue
         rows.append(f"({coq_str(c['d'])}, {'true' if c.get('neg') else 'false'}, ({coq_str(r['pattern'])}, {coq_str(r['name'])}, "
-                    f"{coq_str(r['needle'])}, {coq_str(r['rule'])}), {obs_code(r)})")
+                    f"{coq_str(r['needle'])}, {coq_str(r['rule'])}), {obs_code(r)}, "
+                    + (f"({coq_str(r['dup']['text'])}, {obs_code(r, 'dup')}))" if r.get('dup') else '("", 99))'))
         idx.append(i)
     bad = []
     CH = 400
@@ -271,6 +282,11 @@ CLI_BUDGETS = [
     ['ACME.COM', 'AMZN Mktp US*2K4', 'SAY "HI" CAFE', "JOE'S DINER #12", 'A\\B', 'Shell', 'DUNKIN"DONUTS', 'NETFLIX'],
     ['COSTCO WHSE #0123 SEATTLE WA', 'STORE #12X', 'ACME #12 FOO BAR', 'NETFLIX.COM', 'PAYPAL *FOO BAR'],
 ]
+
+
+# the user already has [Amazon] for AMZN; the statement also shows AMAZON ...: discover derives the same rule name
+AMAZON_BUDGET = ['AMZN MKTP US', 'AMAZON 00012345 SEATTLE WA', 'NETFLIX', 'Starbucks #1234']
+AMAZON_RULES = '\n[Amazon]\nmatch: contains("AMZN")\ncategory: Shopping\nsubcategory: Online\n'
 
 
 def cli(budget, *args):
@@ -331,12 +347,32 @@ def fill(text):
                      else l for l in text.split('\n'))
 
 
-def cli_loop(descs, work):
-    """discover -> append every suggested rule -> discover again. Returns a dict of observations."""
+ABSENT = ['QZXJV~NOT~THERE', 'WQ|KJX|ABSENT', 'ZZ9PLURAL']
+
+
+def same_named_rules(first):
+    """Rules a user may already have: for every suggestion a rule with the very name discover derives (in varying
+    letter case) whose match covers none of the descriptions."""
+    absent = next(a for a in ABSENT if not any(a.upper() in e['raw_description'].upper() for e in first))
+    out = []
+    for i, e in enumerate(first):
+        n = e['suggested_merchant']
+        n = [n, n.upper(), n.lower(), n.swapcase()][i % 4]
+        out.append(f'[{n}]\nmatch: contains("{absent}")\ncategory: Other\nsubcategory: Existing\n')
+    return '\n' + '\n'.join(out)
+
+
+def cli_loop(descs, work, preexisting=False, extra_rules=''):
+    """discover -> append every suggested rule -> discover again. Returns a dict of observations.
+    preexisting: the rules file already holds, for every suggestion, a same-named rule that does not cover it."""
     b = os.path.join(work, 'budget')
-    write_budget(b, descs)
+    write_budget(b, descs, extra_rules)
     first = discover_json(b)
-    obs = {'descriptions': descs, 'unknown_before': len(first), 'unknown_txns_before': sum(e['count'] for e in first)}
+    if preexisting and first:
+        write_budget(b, descs, extra_rules + same_named_rules(first))
+        first = discover_json(b)
+    obs = {'descriptions': descs, 'preexisting_same_named_rules': preexisting, 'extra_rules': extra_rules,
+           'unknown_before': len(first), 'unknown_txns_before': sum(e['count'] for e in first)}
     if not first:
         obs['note'] = 'nothing unknown'
         return obs
@@ -449,11 +485,11 @@ def main(tier):
     reported = []
     for s, cs in sorted(by_sig.items()):
         c = min(cs, key=lambda x: (len(x['d']), x['d']))
-        small = shrink(c['d'], s, c.get('neg', False))
-        s2, r2 = sig_of(small, c.get('neg', False))
+        small = shrink(c['d'], s, c.get('neg', False), dup=c.get('dup', 'same'))
+        s2, r2 = sig_of(small, c.get('neg', False), c.get('dup', 'same'))
         if s2 != s:
-            small, (s2, r2) = c['d'], sig_of(c['d'], c.get('neg', False))
-        new = run.violation('suggestion', {'kind': 'counterexample', 'case': {'d': small, 'neg': c.get('neg', False)},
+            small, (s2, r2) = c['d'], sig_of(c['d'], c.get('neg', False), c.get('dup', 'same'))
+        new = run.violation('suggestion', {'kind': 'counterexample', 'case': {'d': small, 'neg': c.get('neg', False), 'dup': c.get('dup', 'same')},
                                            'observed': r2, 'expected': 'the suggested rule text loads (exactly one rule) and matches this description',
                                            'n_failing_cases': len(cs), 'shrunk_from': c['d'], 'variant': variant,
                                            'obligation': 'c19_suggestion_loads / c19_suggestion_matches on the implementation',
@@ -470,20 +506,22 @@ def main(tier):
     for _ in range(2 if tier == 'quick' else 40):
         budgets.append(rnd.sample(cliable, 6) + ['NETFLIX'])
     loops, loop_fail = [], False
-    for descs in budgets:
+    plan = [(AMAZON_BUDGET, False, AMAZON_RULES)] + [(descs, pre, '') for descs in budgets for pre in (False, True)]
+    for descs, pre, xr in plan:
         try:
-            obs = cli_loop(descs, work)
+            obs = cli_loop(descs, work, pre, xr)
         except Exception as e:  # noqa
             obs = {'descriptions': descs, 'error': f'{type(e).__name__}: {e}'[:400]}
-            run.violation('cli', {'kind': 'cli-loop', 'descriptions': descs, 'observed': obs, 'broken': broken},
-                          signature='C19/cli-loop-raises')
+            run.violation('cli', {'kind': 'cli-loop', 'descriptions': descs, 'preexisting': pre, 'extra_rules': xr, 'observed': obs,
+                                  'broken': broken}, signature='C19/cli-loop-raises')
             loop_fail = True
             loops.append(obs)
             continue
         loops.append(obs)
         for s, detail in loop_verdicts(obs):
             loop_fail = True
-            run.violation('cli', {'kind': 'cli-loop', 'descriptions': descs, 'failing': detail, 'observed': obs,
+            run.violation('cli', {'kind': 'cli-loop', 'descriptions': descs, 'preexisting': pre, 'extra_rules': xr,
+                                  'failing': detail, 'observed': obs,
                                   'expected': 'every suggestion loads and matches; Unknown count strictly decreases after appending the suggestions',
                                   'variant': variant, 'broken': broken}, signature=s)
 
@@ -505,7 +543,7 @@ def main(tier):
         broken.append({'kind': 'broken-correspondence', 'obligation': 'model_vs_impl', 'detail': 'C19/Model.v did not compile'})
     if broken and not any(new for _, _, new in reported) and not run.violations:
         run.violation('broken', {'kind': broken[0]['kind'], 'obligation': broken[0].get('obligation'), 'broken': broken,
-                                 'searched': f'{len(cases)} generated descriptions + {len(budgets)} CLI loops against the C19 oracle; '
+                                 'searched': f'{len(cases)} generated descriptions + {len(plan)} CLI loops against the C19 oracle; '
                                              f'no failure beyond the listed known findings'}, found_input=False)
 
     T['model'] = time.time()
@@ -521,7 +559,7 @@ def main(tier):
         k = signature(c, r) or 'holds'
         hist[k] = hist.get(k, 0) + 1
     run.cov.update({
-        'evaluations': len(cases) + len(model_idx) + len(budgets),
+        'evaluations': len(cases) + len(model_idx) + len(plan),
         'distinct_nontrivial': len(set(multi) | set(esc) | set(quoted)),
         'rule': 'descriptions of 1-5 words (merchant-like words in random letter case, numbers, punctuation incl. every regex metacharacter, '
                 'quotes, backslashes, control characters, caseless non-ASCII) joined by varied whitespace, with processor prefixes and '
@@ -533,7 +571,8 @@ def main(tier):
         'suggestions_multiword': len(multi), 'suggestions_with_escaped_metachar': len(esc), 'suggestions_needing_quoting': len(quoted),
         'suggestions_single_plain_word': len(plain), 'discarded_outside_ascii_fragment': discarded,
         'impl_oracle_cases': len(cases), 'model_vs_impl_cases_in_coq': len(model_idx),
-        'cli_loops': [{k: o.get(k) for k in ('descriptions', 'unknown_before', 'unknown_after', 'still_unknown', 'error')} for o in loops],
+        'cli_loops': [{k: o.get(k) for k in ('descriptions', 'preexisting_same_named_rules', 'unknown_before', 'unknown_after', 'still_unknown', 'error')} for o in loops],
+        'cli_loops_with_preexisting_same_named_rules': sum(1 for o in loops if o.get('preexisting_same_named_rules')),
         'reported': [{'signature': s, 'shrunk': d, 'new': new} for s, d, new in reported],
         'extraction': 'ok' if info else xerr, 'broken': broken, 'phase_seconds': timings})
     run.finish()
@@ -544,7 +583,7 @@ def replay(path):
     kind = obj.get('kind')
     if kind == 'counterexample':
         c = obj['case']
-        s, r = sig_of(c['d'], c.get('neg', False))
+        s, r = sig_of(c['d'], c.get('neg', False), c.get('dup', 'same'))
         print(json.dumps({'description': c['d'], 'signature': s, 'observed': r}, indent=1))
         if s:
             print(f'VIOLATION property=C19 replay={path}')
@@ -553,7 +592,7 @@ def replay(path):
     if kind == 'cli-loop':
         work = os.path.join(WORK, 'C19_cli_replay')
         os.makedirs(work, exist_ok=True)
-        obs = cli_loop(obj['descriptions'], work)
+        obs = cli_loop(obj['descriptions'], work, obj.get('preexisting', False), obj.get('extra_rules', ''))
         v = loop_verdicts(obs)
         print(json.dumps({'observed': obs, 'verdicts': v}, indent=1, default=str))
         if v:
